@@ -9,6 +9,7 @@ CONSTANTS
   Deliveries <- MC_Deliveries
   Payloads <- MC_Payloads
   Keys <- MC_Keys
+  Deviations = {}
   Small = FALSE
 INIT Init
 NEXT Next
